@@ -205,13 +205,13 @@ def main(tier: str) -> int:
     # row sequences: reference encoder (generic and RDF 1.1 shapes) and the real serializer
     seqs = []
     for integ, rdf11 in (("generic", False), ("rdflib", True)):
-        for name, c in producer.configs(rdf11=rdf11)[:6:1]:
+        for name, c in producer.configs(rdf11=rdf11):           # TRIPLES, QUADS and GRAPHS, three table configurations each
             behs, _ = producer.simulate(dict(c), num=12 if tier == "quick" else 60, seed=seed + 70 + len(name), hist_len=6)
             for beh in behs:
                 rows = [r for r in beh["rows"] if r["r"] != "cut"]
                 if len(rows) in parts and beh["den"]:
                     seqs.append((integ, name, rows, [producer.den_item(d) for d in beh["den"]]))
-    for uni, integ in (("mix-quads", "generic"), ("r11-triples", "rdflib"), ("r11-graphs", "rdflib")):
+    for uni, integ in (("mix-quads", "generic"), ("mix-graphs", "generic"), ("r11-triples", "rdflib"), ("r11-graphs", "rdflib")):
         c = U.SIM[uni]
         behs, _ = writer.simulate(c, num=8 if tier == "quick" else 40, hist_len=3, seed=seed + 71)
         for beh in behs:
@@ -220,13 +220,16 @@ def main(tier: str) -> int:
             if len(rows) in parts and res["accepted"]:
                 seqs.append((integ, "pyjelly:" + uni, rows, res["accepted"]))
     rnd.shuffle(seqs)
-    budget = 40 if tier == "quick" else 400
+    budget = 60 if tier == "quick" else 600
     by_len: dict = {}
+    by_src: dict = {}
     chosen = []
     for s in seqs:
         n = len(s[2])
-        if by_len.get(n, 0) < budget // len(lens) + 1:
+        src = (s[0], s[1])
+        if by_len.get(n, 0) < budget // len(lens) + 1 and by_src.get(src, 0) < max(3, budget // 22):      # every source (integration x type x tables) gets its share
             by_len[n] = by_len.get(n, 0) + 1
+            by_src[src] = by_src.get(src, 0) + 1
             chosen.append(s)
     evaluations = 0
     samples = []
